@@ -152,9 +152,41 @@ func (ex *Exec) ginBind(kind string) InterceptFn {
 		}
 		ex.W.nbind++
 		v := ex.bindValue(pt.Elem(), nil, fmt.Sprintf("http.%s%d", strings.ToLower(kind), ex.W.nbind), 0)
+		// the harness keeps its own copy of what the client sent (vx.GinBound)
+		ex.W.ginBound = append(ex.W.ginBound, ginBound{kind: kind, v: &IfaceV{typ: iv.typ, v: &PtrV{obj: ex.newObj(ex.deepCopy(v), pt.Elem()), typ: iv.typ}}})
 		ex.store(ex.ptr(iv.v), v)
 		return nilErr()
 	}
+}
+
+type ginBound struct {
+	kind string
+	v    *IfaceV
+}
+
+// deepCopy duplicates structs, arrays and the cells behind non-nil pointers (terms are immutable; maps are shared).
+func (ex *Exec) deepCopy(v Value) Value {
+	switch x := v.(type) {
+	case *StructV:
+		c := &StructV{fs: make([]Value, len(x.fs))}
+		for i := range x.fs {
+			c.fs[i] = ex.deepCopy(x.fs[i])
+		}
+		return c
+	case *ArrayV:
+		c := &ArrayV{es: make([]Value, len(x.es))}
+		for i := range x.es {
+			c.es[i] = ex.deepCopy(x.es[i])
+		}
+		return c
+	case *PtrV:
+		if x.obj != nil && len(x.path) == 0 {
+			c := *x
+			c.obj = ex.newObj(ex.deepCopy(x.obj.v), x.obj.typ)
+			return &c
+		}
+	}
+	return v
 }
 
 func init() {
@@ -169,6 +201,7 @@ func init() {
 			return v
 		}
 		var v *Term = ex.input("http.param."+k, "string", SString)
+		ex.W.ginSent[k] = v
 		if ex.W.ginWildcards[k] {
 			v = ex.tt.Concat(ex.tt.Str("/"), v) // gin's contract for a catch-all parameter (*name)
 		}
@@ -216,11 +249,35 @@ func init() {
 			}
 		}
 		ex.W.ginParams = map[string]*Term{}
+		ex.W.ginSent = map[string]*Term{}
 		ex.W.ginWildcards = map[string]bool{}
 		for _, wv := range ex.anySliceTerms(a[1]) {
 			ex.W.ginWildcards[ex.str(wv, "wildcard parameter")] = true
 		}
 		return c
+	})
+	// what the client sent: the i-th successfully bound value of the given kind (JSON, Header, Query, Uri)
+	vx("GinBound", func(ex *Exec, fr *Frame, a []Value, s ssa.Instruction) Value {
+		kind := ex.str(a[0], "binding kind")
+		i := ex.concreteInt(a[1], "binding index")
+		for _, b := range ex.W.ginBound {
+			if b.kind == kind {
+				if i == 0 {
+					return b.v
+				}
+				i--
+			}
+		}
+		return &IfaceV{}
+	})
+	// the path parameter as the client sent it (without the '/' gin keeps in front of a catch-all parameter)
+	vx("GinParamSent", func(ex *Exec, fr *Frame, a []Value, s ssa.Instruction) Value {
+		k := ex.str(a[0], "param name")
+		v, ok := ex.W.ginSent[k]
+		if !ok {
+			return ex.tt.Str("")
+		}
+		return v
 	})
 	vx("HttpReplies", func(ex *Exec, fr *Frame, a []Value, s ssa.Instruction) Value {
 		return ex.tt.BV(uint64(len(ex.W.httpReplies)), 64)
